@@ -69,18 +69,30 @@ func (j *JApi) ToJsonIndent() ([]byte, error) {
 	return j.Catalog().ToJsonIndent()
 }
 
-func (j *JApi) ToOpenAPIJson() ([]byte, error) {
-	o, err := openapi.NewOpenAPI(j.Catalog())
-	if err != nil {
-		return nil, err
+func (j *JApi) ToOpenAPIJson() (b []byte, err error) {
+	defer recoverOpenAPIExport(&b, &err)
+	o, e := openapi.NewOpenAPI(j.Catalog())
+	if e != nil {
+		return nil, e
 	}
 	return json.Marshal(o)
 }
 
-func (j *JApi) ToOpenAPIJsonIndent() ([]byte, error) {
-	o, err := openapi.NewOpenAPI(j.Catalog())
-	if err != nil {
-		return nil, err
+func (j *JApi) ToOpenAPIJsonIndent() (b []byte, err error) {
+	defer recoverOpenAPIExport(&b, &err)
+	o, e := openapi.NewOpenAPI(j.Catalog())
+	if e != nil {
+		return nil, e
 	}
 	return json.MarshalIndent(o, "", "  ")
+}
+
+// recoverOpenAPIExport turns a panic of the OpenAPI export (e.g. a schema which
+// cannot be represented by an OpenAPI Schema Object, like a user type with the
+// notation "empty") into an error value.
+func recoverOpenAPIExport(b *[]byte, err *error) {
+	if r := recover(); r != nil {
+		*b = nil
+		*err = fmt.Errorf("the API cannot be exported to OpenAPI: %v", r)
+	}
 }
